@@ -56,12 +56,253 @@ def all_pred(body):
     return body._pred
 
 
+# ---------------------------------------------------------------- variant-/boolean-sensitive reachability
+#
+# Path-insensitive reachability reports paths that no execution takes: `let r = helper(); r?` where the helper's
+# failing branch built `Err(..)` continues, in the CFG, on the Ok edge of the `?` as well; `let f = a || b; if f {..}`
+# takes the else branch after `f = true`.  The searches below therefore walk (block, facts) states, where the facts
+# are what is known about *whole locals that are later tested*: the enum variant last assigned (`Ok`, `Err`, `Some`,
+# `Break`, ...) or a constant integer / boolean.  A switch whose operand is known follows only the feasible edge.
+# Unknown values are explored both ways, so the result over-approximates the feasible paths; `VERIF_INSENSITIVE=1` or
+# a state-count blow-up falls back to the plain CFG search.
+
+import os as _os
+
+_SENS_CACHE = {}
+_MAX_STATES = 60000
+
+
+def _sens_info(body):
+    c = _SENS_CACHE.get(id(body))
+    if c is not None and c[0] is body:
+        return c[1]
+    tested = set()          # locals whose value decides a branch
+    mutref = set()          # locals whose address is taken mutably: never tracked
+    copies = {}             # local -> locals it is copied / negated / discriminated from
+    for blk in body.blocks:
+        for st in blk["s"]:
+            if "l" not in st:
+                if "setdiscr" in st:
+                    mutref.add(st["setdiscr"][0])
+                continue
+            r = st["r"]
+            if r["k"] == "ref" and r.get("mut"):
+                mutref.add(r["p"][0])
+            if r["k"] == "rawptr":
+                mutref.add(r["p"][0])
+            if len(st["l"]) == 1:
+                srcs = []
+                if r["k"] in ("use", "cast"):
+                    pl = op_place(r["o"])
+                    if pl and len(pl) == 1:
+                        srcs.append(pl[0])
+                elif r["k"] == "un":
+                    pl = op_place(r["a"])
+                    if pl and len(pl) == 1:
+                        srcs.append(pl[0])
+                elif r["k"] == "discr" and len(r["p"]) == 1:
+                    srcs.append(r["p"][0])
+                elif r["k"] == "bin":
+                    for o in (r["a"], r["b"]):
+                        pl = op_place(o)
+                        if pl and len(pl) == 1:
+                            srcs.append(pl[0])
+                if srcs:
+                    copies.setdefault(st["l"][0], set()).update(srcs)
+        t = blk["term"]
+        if t["k"] == "switch":
+            pl = op_place(t["d"])
+            if pl and len(pl) == 1:
+                tested.add(pl[0])
+        elif t["k"] == "call" and t["a"]:
+            n = callee(t) or ""
+            if n.endswith(("Try>::branch", "Try::branch")) and len(t["d"]) == 1:
+                pl = op_place(t["a"][0])
+                if pl and len(pl) == 1:
+                    copies.setdefault(t["d"][0], set()).add(pl[0])
+    work = list(tested)
+    while work:
+        x = work.pop()
+        for y in copies.get(x, ()):
+            if y not in tested:
+                tested.add(y)
+                work.append(y)
+    info = (tested - mutref, mutref)
+    _SENS_CACHE[id(body)] = (body, info)
+    return info
+
+
+def _sens_step(body, bb, env, tracked):
+    """(successors, env after the block) for state (bb, env); env: dict local -> variant name | ('i', int)."""
+    blk = body.blocks[bb]
+    env = dict(env)
+    for st in blk["s"]:
+        if "l" not in st:
+            continue
+        l = st["l"]
+        if len(l) != 1:
+            continue
+        d = l[0]
+        if d not in tracked:
+            continue
+        r = st["r"]
+        v = None
+        k = r["k"]
+        if k in ("use", "cast"):
+            c = op_const(r["o"])
+            if c is not None:
+                if "v" in c:
+                    v = ("i", c["v"])
+            else:
+                pl = op_place(r["o"])
+                if pl and len(pl) == 1:
+                    v = env.get(pl[0])
+        elif k == "agg" and r.get("what") == "adt":
+            v = r.get("variant")
+        elif k == "un" and r["op"] == "Not":
+            pl = op_place(r["a"])
+            x = env.get(pl[0]) if pl and len(pl) == 1 else None
+            if isinstance(x, tuple) and body.local_ty(d) == "bool":
+                v = ("i", 0 if x[1] else 1)
+        elif k == "discr" and len(r["p"]) == 1:
+            x = env.get(r["p"][0])
+            if isinstance(x, str):
+                for val, name in r.get("variants", []):
+                    if name == x:
+                        v = ("i", val)
+        elif k == "bin" and r["op"] in ("Eq", "Ne"):
+            xs = []
+            for o in (r["a"], r["b"]):
+                c = op_const(o)
+                if c is not None and "v" in c:
+                    xs.append(c["v"])
+                else:
+                    pl = op_place(o)
+                    x = env.get(pl[0]) if pl and len(pl) == 1 else None
+                    xs.append(x[1] if isinstance(x, tuple) else None)
+            if xs[0] is not None and xs[1] is not None:
+                v = ("i", int((xs[0] == xs[1]) == (r["op"] == "Eq")))
+        if v is None:
+            env.pop(d, None)
+        else:
+            env[d] = v
+    t = blk["term"]
+    k = t["k"]
+    if k == "call":
+        d = t["d"][0] if len(t["d"]) == 1 else None
+        if d is not None:
+            v = None
+            if d in tracked and t["a"]:
+                n = callee(t) or ""
+                pl = op_place(t["a"][0])
+                x = env.get(pl[0]) if pl and len(pl) == 1 else None
+                if n.endswith(("Try>::branch", "Try::branch")):
+                    if x in ("Ok", "Some"):
+                        v = "Continue"
+                    elif x in ("Err", "None"):
+                        v = "Break"
+                elif n.endswith("from_residual"):
+                    ty = body.local_ty(d)
+                    v = "Err" if "result::Result" in ty.split("<")[0] else ("None" if "option::Option" in ty.split("<")[0] else None)
+                elif n.endswith("from_output"):
+                    ty = body.local_ty(d)
+                    v = "Ok" if "result::Result" in ty.split("<")[0] else ("Some" if "option::Option" in ty.split("<")[0] else None)
+            if v is None:
+                env.pop(d, None)
+            else:
+                env[d] = v
+        return succs(body, bb), env
+    if k == "switch":
+        pl = op_place(t["d"])
+        x = env.get(pl[0]) if pl and len(pl) == 1 else None
+        if isinstance(x, tuple):
+            env.pop(pl[0], None)
+            for val, tb in t["ts"]:
+                if val == x[1]:
+                    return [tb], env
+            return [t["else"]], env
+        if pl and len(pl) == 1:
+            env.pop(pl[0], None)
+    return succs(body, bb), env
+
+
+def _sens_search(body, starts, targets, removed, avoid, leave_start):
+    """BFS over (block, facts). Returns (set of reached blocks, path to the first target or None); None on blow-up."""
+    from collections import deque
+    tracked, _ = _sens_info(body)
+    q = deque()
+    parent = {}
+    reached = set()
+
+    def key(bb, env):
+        return (bb, tuple(sorted((a, str(b)) for a, b in env.items())))
+    if leave_start:
+        for s0 in starts:
+            ss, env = _sens_step(body, s0, {}, tracked)
+            for n in ss:
+                if (s0, n) in removed or n in avoid:
+                    continue
+                kk = key(n, env)
+                if kk not in parent:
+                    parent[kk] = (None, s0)
+                    q.append((n, env, kk))
+    else:
+        for s0 in starts:
+            if s0 in avoid:
+                continue
+            kk = key(s0, {})
+            if kk not in parent:
+                parent[kk] = (None, None)
+                q.append((s0, {}, kk))
+    found = None
+    while q:
+        bb, env, kk = q.popleft()
+        reached.add(bb)
+        if targets is not None and bb in targets:
+            found = kk
+            break
+        if len(parent) > _MAX_STATES:
+            return None
+        ss, env2 = _sens_step(body, bb, env, tracked)
+        for n in ss:
+            if n in avoid or (bb, n) in removed:
+                continue
+            k2 = key(n, env2)
+            if k2 in parent:
+                continue
+            parent[k2] = (kk, bb)
+            q.append((n, env2, k2))
+    path = None
+    if found is not None:
+        path = [found[0]]
+        cur = found
+        while True:
+            pk, pb = parent[cur]
+            if pk is None:
+                if pb is not None:
+                    path.append(pb)
+                break
+            path.append(pk[0])
+            cur = pk
+        path.reverse()
+    return reached, path
+
+
+def _insensitive():
+    return bool(_os.environ.get("VERIF_INSENSITIVE"))
+
+
 def reachable(body, starts, removed_edges=(), avoid=()):
-    """Blocks reachable from `starts` (inclusive) along normal edges, never entering `avoid`
-    blocks and never following `removed_edges` (set of (from,to))."""
+    """Blocks reachable from `starts` (inclusive) along feasible normal edges, never entering `avoid`
+    blocks and never following `removed_edges` (set of (from,to)).  Returns (blocks, parent map)."""
     sc = all_succ(body)
     avoid = set(avoid)
     removed = set(removed_edges)
+    feasible = None
+    if not _insensitive():
+        r = _sens_search(body, list(starts), None, removed, avoid, False)
+        if r is not None:
+            feasible = r[0]
     seen = set()
     stack = [s for s in starts if s not in avoid]
     parent = {}
@@ -73,19 +314,33 @@ def reachable(body, starts, removed_edges=(), avoid=()):
         for s in sc[b]:
             if s in avoid or (b, s) in removed or s in seen:
                 continue
+            if feasible is not None and s not in feasible:
+                continue
             if s not in parent:
                 parent[s] = b
             stack.append(s)
+    if feasible is not None:
+        seen &= feasible | set(starts)
     return seen, parent
 
 
 def find_path(body, starts, targets, removed_edges=(), avoid=(), leave_start=False):
-    """Return a list of blocks from a start to a target, or None.
+    """Return a list of blocks from a start to a target along a feasible path, or None.
     leave_start: begin from the successors of the start blocks (path must take >=1 edge)."""
-    sc = all_succ(body)
     removed = set(removed_edges)
     targets = set(targets)
     avoid = set(avoid)
+    if not targets:
+        return None
+    if not _insensitive():
+        r = _sens_search(body, list(starts), targets, removed, avoid, leave_start)
+        if r is not None:
+            return r[1]
+    return _find_path_insensitive(body, starts, targets, removed, avoid, leave_start)
+
+
+def _find_path_insensitive(body, starts, targets, removed, avoid, leave_start):
+    sc = all_succ(body)
     from collections import deque
     q = deque()
     parent = {}
